@@ -139,6 +139,11 @@ def call(ex, st, name, args, kwargs, node):
                 val = V("int", sum_be(b.t, 4))
             yield st1, V("tuple", z3.Unit(box(val)))
         return
+    if name == "hashlib.new":
+        # opaque digest object; only .hexdigest() is modelled (assumed external, cross-checked)
+        data = ex.narrow(st, args[1]) if len(args) > 1 else S.mk_bytes(b"")
+        yield st, Const("hashobj", (ex.narrow(st, args[0]), data))
+        return
     c = eng.contracts.get_external(name, ex.fr.behavior)
     if c is not None:
         from . import callcontract
